@@ -23,7 +23,8 @@ NLines == Len(Rec)
 
 VARIABLES l,        \* next line to consume
           lastRot,  \* inferred: time of the last successful rotation
-          bad       \* number of lines that did not match
+          bad,      \* number of lines that did not match
+          prev      \* projected state after the previous line (continuity of the log)
 
 ToSet(sq) == {sq[i] : i \in DOMAIN sq}
 
@@ -81,7 +82,7 @@ Report(line, r, v, inv) ==
                              diffs |-> {[field |-> f] : f \in Diffs(r.post, line.post)},
                              inv |-> inv])>>)
 
-Init == l = 2 /\ lastRot = 0 /\ bad = 0
+Init == l = 2 /\ lastRot = 0 /\ bad = 0 /\ prev = [none |-> TRUE]
 
 Consume ==
     /\ l <= NLines
@@ -100,10 +101,14 @@ Consume ==
                /\ bad' = IF accepted /\ inv = {} THEN bad ELSE bad + 1
                \* the clock follows what the implementation did
                /\ lastRot' = IF a.name = "RotateSigners" /\ line.obs.ok THEN s.now ELSE lastRot
+    \* the log must be continuous: each call starts in the state the previous one ended in
+    /\ IF Rec[l].reset \/ "none" \in DOMAIN prev \/ Rec[l].pre = prev THEN TRUE
+       ELSE PrintT(<<"DISCONTINUITY", l>>)
+    /\ prev' = IF Rec[l].reset THEN Rec[l].pre ELSE Rec[l].post
     /\ l' = l + 1
 
 Next == Consume
-Spec == Init /\ [][Next]_<<l, lastRot, bad>>
+Spec == Init /\ [][Next]_<<l, lastRot, bad, prev>>
 
 \* acceptance: every line consumed (TLC's diameter counts the initial state too)
 Accepted ==
